@@ -65,7 +65,7 @@ def gen(ctx):
                 keep.append(h)
                 continue
             if fam == "plain" and len(h["ops"]) == 5 and (h["ops"][1]["v"] in ("emptypath", "empty", "fdexec")
-                                                         or o["v"] in ("fdexec", "envrun")):
+                                                         or o["v"] in ("fdexec", "envrun", "cgexec")):
                 keep.append(h)          # the carry-over family always runs
                 continue
             if fam == "plain" and len(h["ops"]) == 5 and all(failcore(x) for x in h["ops"][:2]):
